@@ -61,6 +61,7 @@ fn store() -> FixedStore {
 
 fn resolve(c: &mut Compiler, name: &str, quantity: i128) -> Result<tx3_tir::compile::CompiledTx, Error> {
     let tx = lower(SRC, name);
+    vf_pipeline::begin_case(format!("resolve {name} quantity={quantity}"));
     pollster::block_on(tx3_resolver::resolve_tx(AnyTir::V1Beta0(tx), &args(quantity), c, &store(), 10))
 }
 
@@ -98,6 +99,7 @@ fn show(r: &Result<tx3_tir::compile::CompiledTx, Error>) -> String {
 }
 
 fn main() {
+    vf_pipeline::start_watchdog(45);
     // BOUND: histories of length 0..=2 over 9 kinds of earlier use, 6 target templates (two with redeemers and Plutus
     // witnesses of different versions), one parameter setting.
     let steps = [
